@@ -1348,4 +1348,135 @@ theorem resolveFlavor_fuel (C : Ctx) (r : Req) (keep : Bool) (fuel : Nat) (vro :
                 simp only [List.length_drop]
                 omega
 
+
+/-! ## `latest` -/
+
+/-- what `latestGo` knows after the first `i` stacks of `full` -/
+def LatestInv (cmp : Str → Str → Int) (full : Db) (n f : Str) (i : Nat) (out : Option Prod) : Prop :=
+  match out with
+  | none => ∀ (j : Nat) (st : Stack) (w : Str), j < i → full[j]? = some st → declared st n w f = false
+  | some o =>
+    o.flavor = f ∧ (∃ st, full[o.stack]? = some st ∧ declared st n o.version f = true) ∧
+    ∀ (j : Nat) (st : Stack) (w : Str), j < i → full[j]? = some st → declared st n w f = true →
+      cmp w o.version ≤ 0
+
+theorem latestGo_inv {cmp : Str → Str → Int} (g : GoodOrd cmp) (full : Db) (n f : Str)
+    (pre rest : Db) (hfull : full = pre ++ rest) (out : Option Prod)
+    (hinv : LatestInv cmp full n f pre.length out) :
+    LatestInv cmp full n f full.length (latestGo cmp n f pre.length out rest) := by
+  induction rest generalizing pre out with
+  | nil =>
+    simp only [latestGo]
+    have : full.length = pre.length := by rw [hfull]; simp
+    rw [this]; exact hinv
+  | cons st rest ih =>
+    have hget : full[pre.length]? = some st := by rw [hfull]; simp
+    have hfull' : full = (pre ++ [st]) ++ rest := by rw [hfull]; simp
+    have hlen : (pre ++ [st]).length = pre.length + 1 := by simp
+    simp only [latestGo]
+    cases hm : lastMax cmp (versionsOf st n f) with
+    | none =>
+      -- the stack declares nothing for (n, f)
+      have hnil : versionsOf st n f = [] := by
+        cases hv : versionsOf st n f with
+        | nil => rfl
+        | cons a as => rw [hv] at hm; simp [lastMax] at hm
+      have hno : ∀ w, declared st n w f = false := by
+        intro w
+        cases hd : declared st n w f
+        · rfl
+        · have := (mem_versionsOf st n f w).mpr hd
+          rw [hnil] at this; cases this
+      have := ih (pre ++ [st]) hfull' out (by
+        rw [hlen]
+        cases out with
+        | none =>
+          intro j st' w hj hgetj
+          rcases Nat.lt_succ_iff_lt_or_eq.mp hj with hj | hj
+          · exact hinv j st' w hj hgetj
+          · subst hj; rw [hget] at hgetj; cases hgetj; exact hno w
+        | some o =>
+          obtain ⟨h1, h2, h3⟩ := hinv
+          refine ⟨h1, h2, ?_⟩
+          intro j st' w hj hgetj hd
+          rcases Nat.lt_succ_iff_lt_or_eq.mp hj with hj | hj
+          · exact h3 j st' w hj hgetj hd
+          · subst hj; rw [hget] at hgetj; cases hgetj; rw [hno w] at hd; cases hd)
+      rw [hlen] at this
+      exact this
+    | some v =>
+      have hv : declared st n v f = true := (mem_versionsOf st n f v).mp (lastMax_mem hm)
+      have hmax : ∀ w, declared st n w f = true → cmp w v ≤ 0 :=
+        fun w hw => lastMax_max g hm w ((mem_versionsOf st n f w).mpr hw)
+      -- the invariant for "v from this stack is the new answer"
+      have hnew : (∀ (j : Nat) (st' : Stack) (w : Str), j < pre.length → full[j]? = some st' →
+          declared st' n w f = true → cmp w v ≤ 0) →
+          LatestInv cmp full n f (pre ++ [st]).length (some ⟨v, f, pre.length⟩) := by
+        intro hearlier
+        refine ⟨rfl, ⟨st, hget, hv⟩, ?_⟩
+        intro j st' w hj hgetj hd
+        rw [hlen] at hj
+        rcases Nat.lt_succ_iff_lt_or_eq.mp hj with hj | hj
+        · exact hearlier j st' w hj hgetj hd
+        · subst hj; rw [hget] at hgetj; cases hgetj; exact hmax w hd
+      cases out with
+      | none =>
+        simp only
+        have := ih (pre ++ [st]) hfull' _ (hnew (by
+          intro j st' w hj hgetj hd
+          rw [hinv j st' w hj hgetj] at hd; cases hd))
+        rw [hlen] at this
+        exact this
+      | some o =>
+        obtain ⟨h1, h2, h3⟩ := hinv
+        simp only
+        by_cases hgt : 0 < cmp v o.version
+        · simp only [hgt, if_true]
+          have := ih (pre ++ [st]) hfull' _ (hnew (by
+            intro j st' w hj hgetj hd
+            exact g.trans _ _ _ (h3 j st' w hj hgetj hd) (g.flip _ _ (by omega))))
+          rw [hlen] at this
+          exact this
+        · simp only [hgt, if_false]
+          have := ih (pre ++ [st]) hfull' (some o) (by
+            refine ⟨h1, h2, ?_⟩
+            intro j st' w hj hgetj hd
+            rw [hlen] at hj
+            rcases Nat.lt_succ_iff_lt_or_eq.mp hj with hj | hj
+            · exact h3 j st' w hj hgetj hd
+            · subst hj; rw [hget] at hgetj; cases hgetj
+              exact g.trans _ _ _ (hmax w hd) (by omega))
+          rw [hlen] at this
+          exact this
+
+/-- `latest`: a declared version such that no declared version anywhere on the path is newer -/
+theorem lookupLatest_some {cmp : Str → Str → Int} (g : GoodOrd cmp) {db : Db} {n f : Str} {p : Prod}
+    (h : lookupLatest cmp db n f = some p) :
+    p.flavor = f ∧ (∃ st, db[p.stack]? = some st ∧ declared st n p.version f = true) ∧
+    ∀ (j : Nat) (st : Stack) (w : Str), db[j]? = some st → declared st n w f = true → cmp w p.version ≤ 0 := by
+  have := latestGo_inv g db n f [] db rfl none (by intro j st w hj; cases hj)
+  unfold lookupLatest at h
+  simp only [List.length_nil] at this
+  rw [h] at this
+  obtain ⟨h1, h2, h3⟩ := this
+  refine ⟨h1, h2, ?_⟩
+  intro j st w hget hd
+  have hj : j < db.length := by
+    cases Nat.lt_or_ge j db.length with
+    | inl h => exact h
+    | inr h =>
+      have : db[j]? = none := List.getElem?_eq_none h
+      rw [this] at hget; cases hget
+  exact h3 j st w hj hget hd
+
+theorem lookupLatest_none {cmp : Str → Str → Int} (g : GoodOrd cmp) {db : Db} {n f : Str}
+    (h : lookupLatest cmp db n f = none) : ∀ st ∈ db, ∀ w, declared st n w f = false := by
+  have := latestGo_inv g db n f [] db rfl none (by intro j st w hj; cases hj)
+  unfold lookupLatest at h
+  simp only [List.length_nil] at this
+  rw [h] at this
+  intro st hst w
+  obtain ⟨j, hj, hget⟩ := List.mem_iff_getElem.mp hst
+  exact this j st w hj (by simp [List.getElem?_eq_getElem hj, hget])
+
 end EupsModel.Vro
